@@ -51,9 +51,11 @@ fn unit_coords(spec: &Spec, v: &V, out: &mut Vec<f64>) {
 /// coordinate's CDF within 6 sigma of uniform, every sample inside the bounds, and coordinates of
 /// DIFFERENT components uncorrelated within 6 / sqrt(N). Returns what it found wrong, if anything.
 pub fn generic_stream_audit<K: Kit>(spec: &Spec) -> Result<u64, String> {
+    generic_stream_audit_n::<K>(spec, 48, 800)
+}
+
+pub fn generic_stream_audit_n<K: Kit>(spec: &Spec, seeds: u64, per: usize) -> Result<u64, String> {
     use rand::SeedableRng;
-    let seeds = 48u64;
-    let per = 800usize;
     let rows: Vec<Vec<(Vec<f64>, Vec<usize>, bool)>> = (0..seeds)
         .into_par_iter()
         .map(|seed| {
@@ -126,6 +128,26 @@ pub fn generic_stream_audit<K: Kit>(spec: &Spec) -> Result<u64, String> {
             let corr = cov / (var[i] * var[j]).sqrt();
             if corr.abs() > 6.0 / n.sqrt() {
                 return Err(format!("coordinates {i} and {j} of different components have correlation {corr:.4} over {} samples: the components are not sampled independently", all.len()));
+            }
+            // dependence that is not linear: 4 x 4 table over the empirical quartiles of each coordinate
+            // (the marginals are then exact, so only independence is judged): every cell n/16 within 6 sigma
+            let quart = |k: usize| {
+                let mut v: Vec<f64> = all.iter().map(|r| r.0[k]).collect();
+                v.sort_by(|a, b| a.partial_cmp(b).unwrap());
+                [v[v.len() / 4], v[v.len() / 2], v[3 * v.len() / 4]]
+            };
+            let (qi, qj) = (quart(i), quart(j));
+            if qi[0] < qi[1] && qi[1] < qi[2] && qj[0] < qj[1] && qj[1] < qj[2] {
+                let bin = |q: &[f64; 3], x: f64| q.iter().filter(|e| x >= **e).count();
+                let mut cells = [0u64; 16];
+                for r in &all {
+                    cells[bin(&qi, r.0[i]) * 4 + bin(&qj, r.0[j])] += 1;
+                }
+                let want = n / 16.0;
+                let sd = (n * (1.0 / 16.0) * (15.0 / 16.0)).sqrt();
+                if let Some((c, v)) = cells.iter().enumerate().find(|(_, v)| (**v as f64 - want).abs() > 6.0 * sd) {
+                    return Err(format!("coordinates {i} and {j} of different components: quartile cell {c} holds {v} of {} samples (independence puts {want:.0} +- {sd:.0} there): the components are not sampled independently", all.len()));
+                }
             }
         }
     }
@@ -613,6 +635,45 @@ pub fn run(tier: &'static str) -> i32 {
     for dim in [10usize, 12] {
         rv_stream_audit(dim, seeds, if thorough { 2000 } else { 800 }, &mut rep);
     }
+    // independence ACROSS the components of compound kinds whose components draw many words (a long
+    // vector, a rotation found by rejection): real generator streams, marginals and cross-component
+    // dependence (linear and quartile tables)
+    {
+        let r2 = Spec::Rv { dim: 2, bounds: Some(vec![(0.0, 4.0), (-1.0, 1.0)]), frac: None };
+        let r6 = Spec::Rv { dim: 6, bounds: Some(vec![(0.0, 1.0), (-1.0, 1.0), (0.0, 4.0), (2.0, 3.0), (-5.0, 5.0), (0.0, 0.5)]), frac: None };
+        let so2 = Spec::So2 { bounds: None, frac: None };
+        let so2b = Spec::So2 { bounds: Some((-1.0, 2.0)), frac: None };
+        let so3 = Spec::So3 { bounds: None, frac: None };
+        let so3c = Spec::So3 { bounds: Some(([0.0, 0.0, 0.0, 1.0], 1.0)), frac: None };
+        let layouts: Vec<Vec<Spec>> = vec![
+            vec![r6.clone(), so2.clone()],
+            vec![so3.clone(), r2.clone()],
+            vec![r2.clone(), so3.clone(), so2b.clone()],
+            vec![so3c.clone(), so2.clone(), r2.clone()],
+            vec![so2b.clone(), r6.clone(), so3.clone()],
+            vec![so3.clone(), so3c.clone()],
+        ];
+        let (sd, per) = if thorough { (192u64, 2000usize) } else { (48, 1000) };
+        for parts in layouts {
+            let weights = vec![1.0; parts.len()];
+            let spec = Spec::Cmp { parts, weights };
+            match generic_stream_audit_n::<Cmp>(&spec, sd, per) {
+                Ok(n) => {
+                    rep.count("evaluations", n);
+                    rep.count("compound_stream_audits", 1);
+                }
+                Err(e) => viol(&mut rep, "Compound|stream-audit|law", format!("on real generator streams: {e}"), json!({"space": spec.json(), "seeds": sd, "per_seed": per})),
+            }
+        }
+        let se3 = Spec::Se3 { weight: 0.5, bounds: Some(vec![(0.0, 4.0), (-1.0, 1.0), (2.0, 3.0)]) };
+        match generic_stream_audit_n::<Se3>(&se3, sd, per) {
+            Ok(n) => {
+                rep.count("evaluations", n);
+                rep.count("compound_stream_audits", 1);
+            }
+            Err(e) => viol(&mut rep, "SE3|stream-audit|law", format!("on real generator streams: {e}"), json!({"space": se3.json()})),
+        }
+    }
     let meta = CheckMeta {
         prop: "C14",
         tier,
@@ -625,7 +686,7 @@ pub fn run(tier: &'static str) -> i32 {
             "rand 0.9 maps a word w to the unit value (w >> 12) * 2^-52 (the exact-count results confirm it)".into(),
             "SO(3) quadrature tolerances calibrated at design time: correct sampler 0.0086 (K=32), 0.0016 (K=64); cube-normalisation without ball rejection 0.077".into(),
         ],
-        must_be_positive: vec!["product_lattices", "marginal_bins_checked", "pair_bins_checked", "so3_lattices", "so3_first_attempt_accepted", "octant_checks", "se3_lattices", "edited_bounds_lattices", "so3_stream_audits", "rv_stream_audits", "rv_stream_pairs_checked"],
+        must_be_positive: vec!["product_lattices", "marginal_bins_checked", "pair_bins_checked", "so3_lattices", "so3_first_attempt_accepted", "octant_checks", "se3_lattices", "edited_bounds_lattices", "so3_stream_audits", "rv_stream_audits", "rv_stream_pairs_checked", "compound_stream_audits"],
     };
     finish(&meta, rep, t0)
 }
